@@ -418,7 +418,7 @@ func fnvHash(s string) uint32 {
 func init() {
 	register(&CheckDef{
 		ID: "C08", Build: "instr", Run: c08Run, RunCase: c08RunCase,
-		Rule:        "states = reference graphs on <= 2 nodes (every topology, 5-7 placements, every entry element, chains over 1-2 documents) in which one (thorough: two) reference(s) - any schema edge at any keyword position, the entry reference, a chain hop - is made unresolvable in each of 8 ways (pointer nowhere, pointer into an unset member of an existing node, pointer differing from an existing name by letter case only, document missing, target a string / number / boolean / array), plus every subset of <= 2 requested documents refused by the loader, with ContinueOnError off and on, each under every map order within 1 deviation; oracle from the reference model: strict mode errs iff some reference it has to follow is unresolvable; continue mode returns nil, keeps unresolvable schema refs verbatim, and expands independent elements completely; non-trivial = a case with at least one broken reference or refused document",
+		Rule:        "states = reference graphs on <= 2 nodes (every topology, 5-7 placements, every entry element - the entry references of a path item also broken one position at a time -, chains over 1-2 documents) in which one (thorough: two) reference(s) - any schema edge at any keyword position, the entry reference, a chain hop - is made unresolvable in each of 8 ways (pointer nowhere, pointer into an unset member of an existing node, pointer differing from an existing name by letter case only, document missing, target a string / number / boolean / array), plus every subset of <= 2 requested documents refused by the loader, with ContinueOnError off and on, each under every map order within 1 deviation; oracle from the reference model: strict mode errs iff some reference it has to follow is unresolvable; continue mode returns nil, keeps unresolvable schema refs verbatim, and expands independent elements completely; non-trivial = a case with at least one broken reference or refused document",
 		Assumptions: []string{"a reference 'has to be followed' when it is reachable from a root element of the document", "in continue mode only unresolvable schema $refs are required to stay verbatim (the statement's wording); what happens to an unresolvable parameter/response/path-item $ref is not judged", "a target that is JSON null is not in the statement's list and is not generated here"},
 		MinOutcomes: 3,
 	})
